@@ -12,8 +12,8 @@ fn main() {
     let mut n = 0usize;
     let deltas: [u16; 9] = [0, 1, 12, 13, 14, 268, 269, 270, 65535];
     let lens: [usize; 9] = [0, 1, 12, 13, 14, 268, 269, 270, 1000];
-    let toks: [usize; 3] = [0, 1, 8];
-    let pays: [usize; 3] = [0, 1, 300];
+    let toks: [usize; 2] = [0, 8];
+    let pays: [usize; 2] = [0, 300];
     for &d in &deltas {
         for &l in &lens {
             for &t in &toks {
